@@ -169,7 +169,8 @@ func (p *c03Pred) evalRow(row map[string]any) bool {
 		}
 		return false
 	}
-	return cmpOp(p.Op, row[p.Col].(float64), p.K)
+	// (o.p: WHERE may name the very path a GROUP BY column is written as)
+	return cmpOp(p.Op, c03Get(row, p.Col).(float64), p.K)
 }
 
 // evalGroup evaluates a HAVING tree; ok=false when some aggregate it needs is
@@ -324,7 +325,7 @@ func drawWherePred(t *rapid.T, depth int) *c03Pred {
 		return &c03Pred{ExistsK: rapid.IntRange(1, 3).Draw(t, "w_exists_k")}
 	}
 	if depth >= 1 || rapid.IntRange(0, 2).Draw(t, "w_leaf") > 0 {
-		return &c03Pred{Col: rapid.SampledFrom([]string{"y", "z"}).Draw(t, "w_col"), Op: rapid.SampledFrom([]string{"=", "!=", "<", "<=", ">", ">="}).Draw(t, "w_op"), K: float64(rapid.IntRange(-1, 4).Draw(t, "w_k"))}
+		return &c03Pred{Col: rapid.SampledFrom([]string{"y", "z", "o.p"}).Draw(t, "w_col"), Op: rapid.SampledFrom([]string{"=", "!=", "<", "<=", ">", ">="}).Draw(t, "w_op"), K: float64(rapid.IntRange(-1, 4).Draw(t, "w_k"))}
 	}
 	return &c03Pred{Conn: rapid.SampledFrom([]string{"AND", "OR"}).Draw(t, "w_conn"), Left: drawWherePred(t, depth+1), Right: drawWherePred(t, depth+1)}
 }
